@@ -303,7 +303,7 @@ def check_config(prop, cfg, ctx, validate=True, want_smt2=0):
                 _validate_path(prop, cfg, ctx, inp, path, ob, rec, dbl)
             if len(rec['samples']) < 2:
                 rec['samples'].append(dict(decisions=[int(d) for d in path.decisions][:40], n_obligations=len(obls),
-                                           pc_size=sum(len(str(c)) for c in path.pc[:5]), outcome=_short(ob, 200)))
+                                           pc_conjuncts=len(path.pc), outcome=_short(ob, 200)))
     except PathCap as e:
         rec['errors'].append('path cap: ' + str(e))
     except ConfigTimeout as e:
